@@ -31,6 +31,19 @@ C14_Datagram == At("ext") =>
 C14_Objects == At("ext") /\ E.d.form \in {"compliant", "legacy"} =>
     /\ E.p.has_ext /\ E.p.version = 2
     /\ E.p.objs = E.d.objs
+\* ... and the objects the tracer reports to its users (trippy-core Extensions::try_from over the same octets) are those
+\* objects, in order (an MPLS object is reported by its members; an MPLS object without any member is malformed and
+\* makes the conversion fail, which is then all that is required)
+CoreObj(o) == [cls |-> o.cls, plen |-> o.plen, mpls |-> o.mpls]
+CoreOf(objs) == [i \in 1..Len(objs) |-> CoreObj(objs[i])]
+SubOK(c, o) == c.cls = 1 \/ c.sub = o.sub
+C14_Core == At("ext") /\ E.d.form \in {"compliant", "legacy"} /\ E.p.has_ext /\ E.p.version = 2 =>
+    IF \E i \in 1..Len(E.p.objs) : E.p.objs[i].cls = 1 /\ E.p.objs[i].plen = 0
+    THEN TRUE
+    ELSE /\ E.p.core_ok
+         /\ Len(E.p.core) = Len(E.p.objs)
+         /\ CoreOf(E.p.core) = CoreOf(E.p.objs)
+         /\ \A i \in 1..Len(E.p.objs) : SubOK(E.p.core[i], E.p.objs[i])
 \* every reported object lies inside the extension structure: its length field covers exactly its header and
 \* payload, and the objects together do not exceed the structure
 RECURSIVE SumLen(_, _)
